@@ -455,6 +455,22 @@ VARIANTS = [
     {"name": "P R12 notation formatter prints reals with 17 significant digits", "file": LLSDF, "expect": "silent",
      "old": "        return super().STRING(v).replace(b\"\\n\", b\"\\\\n\")\n",
      "new": "        return super().STRING(v).replace(b\"\\n\", b\"\\\\n\")\n\n    def REAL(self, v):\n        return b\"r%.17g\" % v\n"},
+    # ---- round 8 mechanisms
+    {"name": "R3 And evaluated through a shared operand loop that only stops when short-circuiting", "file": FILT, "expect": "C18.R3",
+     "old": "        left_match = self.left_node.match(msg, short_circuit)\n        if not left_match:\n            return MatchResult(False, [])\n"
+            "        right_match = self.right_node.match(msg, short_circuit)\n        if not right_match:\n            return MatchResult(False, [])\n"
+            "        return MatchResult(True, left_match.fields + right_match.fields)",
+     "new": "        seen = []\n        for operand in self.children:\n            outcome = operand.match(msg, short_circuit)\n"
+            "            seen.append(outcome)\n            if short_circuit and not outcome:\n                break\n"
+            "        if not seen[-1]:\n            return MatchResult(False, [])\n"
+            "        return MatchResult(True, [f for o in seen for f in o.fields])"},
+    {"name": "P R3 And evaluated through an operand loop that stops at the first failure", "file": FILT, "expect": "silent",
+     "old": "        left_match = self.left_node.match(msg, short_circuit)\n        if not left_match:\n            return MatchResult(False, [])\n"
+            "        right_match = self.right_node.match(msg, short_circuit)\n        if not right_match:\n            return MatchResult(False, [])\n"
+            "        return MatchResult(True, left_match.fields + right_match.fields)",
+     "new": "        seen = []\n        for operand in self.children:\n            outcome = operand.match(msg, short_circuit)\n"
+            "            seen.append(outcome)\n            if not outcome:\n                return MatchResult(False, [])\n"
+            "        merged = []\n        for o in seen:\n            merged.extend(o.fields)\n        return MatchResult(True, merged)"},
     # ---- documented limits
     {"name": "X bare selector matches on the raw value instead of truthiness", "file": LOGR, "expect": "miss",
      "old": "                return bool(val)\n", "new": "                return val is not None\n"},
